@@ -104,6 +104,19 @@ def gen_late_waiter(rng: random.Random) -> dict:
             "orders": [list(range(n)), list(reversed(range(n)))]}
 
 
+def gen_two_failures_mixed(rng: random.Random) -> dict:
+    """Two nodes failing in ONE step, the first-listed one a nested graph (or an async function), the later one a plain synchronous function:
+    both runners report the failure of the node listed first."""
+    fn = gen._fn_node
+    inner = {"name": "sub", "nodes": [fn("inner_bad", [["x", None]], ["iv"], {"b": "fail", "t": "E_inner_bad"})], "bound": []}
+    first = {"name": "sub", "kind": "graph", "inner": 0} if rng.random() < 0.6 else fn("slow_bad", [["x", None]], ["iv"], {"b": "fail", "t": "E_slow_bad"})
+    later = fn("plain_bad", [["x", None]], ["pv"], {"b": "fail", "t": "E_plain_bad"}, syncBody=True)
+    ok = fn("fine", [["x", None]], ["fv"], {"b": "tag", "t": "fine"}, syncBody=rng.random() < 0.5)
+    nodes = [first, later]
+    nodes.insert(rng.randint(0, 2), ok)
+    return {"program": [inner, {"name": "g1", "nodes": nodes, "bound": []}], "values": [["x", rng.randint(0, 3)]], "cfg": {"errMode": rng.choice(["raise", "continue"])}}
+
+
 def gen_awaitable_value(rng: random.Random) -> dict:
     """A plain (non-async) function whose VALUE is an awaitable object: both runners hand that object to the consumers, neither awaits it."""
     nodes = [{"name": "make", "kind": "fn", "params": [["x", None]], "dataOuts": ["h"], "body": {"b": "lazy", "t": "make"}, "syncBody": True},
@@ -132,7 +145,7 @@ class C02(RunProp):
         gens = gens * 2 + [lambda: gen_mutex_race(rng), lambda: gen.gen_map_node(rng, force="raise-multi"), lambda: gen_shared_target(rng), lambda: gen_same_step_feed(rng)]
         # the dedicated families are visited several times per run, whatever the seed
         forced = [lambda: gen_shared_target(rng), lambda: gen_mutex_race(rng), lambda: gen.gen_map_node(rng, force="raise-multi"), lambda: gen_same_step_feed(rng)] * 3
-        forced += [lambda: gen_awaitable_value(rng)] * 2 + [lambda: gen_late_waiter(rng)] * 3
+        forced += [lambda: gen_awaitable_value(rng)] * 2 + [lambda: gen_late_waiter(rng)] * 3 + [lambda: gen_two_failures_mixed(rng)] * 3
         while True:
             c = forced.pop()() if forced else rng.choice(gens)()
             if continue_map_with_failing_items(c["program"]):
